@@ -150,6 +150,205 @@ func caseFunc(v ssa.Value) (kind string, arg ssa.Value) {
 	return "", nil
 }
 
+// structAllocOf resolves a struct-typed call argument to the local allocation it
+// was built in: a load of that allocation, or a φ (an inlined constructor's merged
+// result) whose other inputs are zero values arriving only on edges on which the
+// constructor's error result is non-nil while the call needs that error to be nil.
+func structAllocOf(fn *ssa.Function, call ssa.Instruction, a ssa.Value, pkgFuncs []*ssa.Function) (*ssa.Alloc, ssa.Instruction) {
+	load := func(v ssa.Value) *ssa.Alloc {
+		if u, ok := v.(*ssa.UnOp); ok && u.Op == token.MUL {
+			if x, ok := u.X.(*ssa.Alloc); ok {
+				return x
+			}
+		}
+		return nil
+	}
+	if x := load(a); x != nil {
+		return x, a.(*ssa.UnOp)
+	}
+	phi, ok := a.(*ssa.Phi)
+	if !ok {
+		return nil, nil
+	}
+	var al *ssa.Alloc
+	var use ssa.Instruction
+	var zero []int
+	for i, e := range phi.Edges {
+		if c, isConst := e.(*ssa.Const); isConst && c.Value == nil {
+			zero = append(zero, i)
+			continue
+		}
+		x := load(e)
+		if x == nil || al != nil {
+			return nil, nil
+		}
+		al, use = x, e.(*ssa.UnOp)
+	}
+	if al == nil || len(zero) == 0 {
+		return al, use
+	}
+	// the companion error φ of the same block
+	for _, in := range phi.Block().Instrs {
+		ep, ok := in.(*ssa.Phi)
+		if !ok || ep == phi || ep.Type().String() != "error" {
+			continue
+		}
+		isErr := func(v ssa.Value) bool { return v == ssa.Value(ep) }
+		if requiresX(fn, core.Is(call), core.Cmp(token.EQL, isErr, core.IsNil)) != nil {
+			continue
+		}
+		good := true
+		for _, i := range zero {
+			ev := ep.Edges[i]
+			pred := phi.Block().Preds[i]
+			if errNonNil(pkgFuncs, ev) {
+				continue
+			}
+			isEv := func(v ssa.Value) bool { return v == ev }
+			at := core.Cmp(token.NEQ, isEv, core.IsNil)
+			if core.EdgeCount(fn, at) == 0 || requiresX(fn, core.Is(pred.Instrs[len(pred.Instrs)-1]), at) != nil {
+				good = false
+			}
+		}
+		if good {
+			return al, use
+		}
+	}
+	return nil, nil
+}
+
+// sliceFedBy: the slice value depends on a value satisfying src: through appends
+// (def-use) or through element stores into the slice made by make([]T, n).
+func sliceFedBy(v ssa.Value, src func(ssa.Value) bool) bool {
+	if core.DependsOn(v, src) {
+		return true
+	}
+	seen := map[ssa.Value]bool{}
+	var walk func(v ssa.Value) bool
+	walk = func(v ssa.Value) bool {
+		if v == nil || seen[v] {
+			return false
+		}
+		seen[v] = true
+		switch x := v.(type) {
+		case *ssa.Phi:
+			for _, e := range x.Edges {
+				if walk(e) {
+					return true
+				}
+			}
+		case *ssa.Slice:
+			return walk(x.X)
+		case *ssa.MakeSlice:
+			for _, ref := range *x.Referrers() {
+				if ia, ok := ref.(*ssa.IndexAddr); ok {
+					for _, r2 := range *ia.Referrers() {
+						if st, ok := r2.(*ssa.Store); ok && st.Addr == ssa.Value(ia) && core.DependsOn(st.Val, src) {
+							return true
+						}
+					}
+				}
+			}
+		}
+		return false
+	}
+	return walk(v)
+}
+
+// concreteCutX is core.ConcreteCut extended to conditions that are boolean φ-nodes
+// (`a && b` used as a value, e.g. in the cases of a tagless switch): the guards
+// comparing the variable with constants are evaluated for the concrete value c,
+// φ-nodes are evaluated over their feasible inputs, and the infeasible successor
+// of every decided `if` is removed, iterated to a fixpoint.
+func concreteCutX(fn *ssa.Function, isVar func(ssa.Value) bool, c int64) func(core.Edge) bool {
+	dead := map[core.Edge]bool{}
+	reach := map[*ssa.BasicBlock]bool{}
+	var eval func(v ssa.Value, d int) (bool, bool)
+	eval = func(v ssa.Value, d int) (bool, bool) {
+		if d > 6 {
+			return false, false
+		}
+		switch x := v.(type) {
+		case *ssa.Const:
+			if x.Value != nil && x.Value.Kind() == constant.Bool {
+				return constant.BoolVal(x.Value), true
+			}
+		case *ssa.UnOp:
+			if x.Op == token.NOT {
+				b, ok := eval(x.X, d+1)
+				return !b, ok
+			}
+		case *ssa.BinOp:
+			if isVar(core.Strip(x.X)) {
+				if k, ok := core.ConstInt(x.Y); ok {
+					return evalCmp(x.Op, c, k)
+				}
+			} else if isVar(core.Strip(x.Y)) {
+				if k, ok := core.ConstInt(x.X); ok {
+					return evalCmp(x.Op, k, c)
+				}
+			}
+		case *ssa.Phi:
+			val, n := false, 0
+			for i, e := range x.Edges {
+				pb := x.Block().Preds[i]
+				if !reach[pb] || dead[core.Edge{From: pb, To: x.Block()}] {
+					continue
+				}
+				b, ok := eval(e, d+1)
+				if !ok || (n > 0 && b != val) {
+					return false, false
+				}
+				val, n = b, n+1
+			}
+			return val, n > 0
+		}
+		return false, false
+	}
+	for round := 0; round < 10; round++ {
+		// reachability under the current dead set
+		for b := range reach {
+			delete(reach, b)
+		}
+		work := []*ssa.BasicBlock{fn.Blocks[0]}
+		for len(work) > 0 {
+			b := work[len(work)-1]
+			work = work[:len(work)-1]
+			if reach[b] {
+				continue
+			}
+			reach[b] = true
+			for _, s := range b.Succs {
+				if !dead[core.Edge{From: b, To: s}] {
+					work = append(work, s)
+				}
+			}
+		}
+		changed := false
+		for _, b := range fn.Blocks {
+			iff, ok := b.Instrs[len(b.Instrs)-1].(*ssa.If)
+			if !ok || !reach[b] {
+				continue
+			}
+			val, known := eval(iff.Cond, 0)
+			if !known {
+				continue
+			}
+			e := core.Edge{From: b, To: b.Succs[1]}
+			if !val {
+				e = core.Edge{From: b, To: b.Succs[0]}
+			}
+			if !dead[e] {
+				dead[e], changed = true, true
+			}
+		}
+		if !changed {
+			break
+		}
+	}
+	return func(e core.Edge) bool { return dead[e] }
+}
+
 func flattenConcat(v ssa.Value) []ssa.Value {
 	if b, ok := v.(*ssa.BinOp); ok && b.Op == token.ADD {
 		return append(flattenConcat(b.X), flattenConcat(b.Y)...)
@@ -181,6 +380,10 @@ func c20(r *core.Run) {
 		return
 	}
 	r.Extra["packages_in_process"] = 3
+	r.Extra["ext_funcs"] = ext.FuncNames()
+	if ext.VariantLevel > 0 {
+		r.Extra["ext_inlined"] = ext.Inlined
+	}
 	all := ext.AllFuncs()
 	inMod := map[*ssa.Function]bool{}
 	for _, f := range all {
@@ -515,18 +718,17 @@ func c20(r *core.Run) {
 			}
 			return ""
 		}
-		// the struct handed to the renderer
+		// the struct handed to the renderer (al) and the point where its value is taken (alUse)
 		var al *ssa.Alloc
+		var alUse ssa.Instruction
 		for _, c := range core.Calls(fnFormat, func(in ssa.Instruction) bool {
 			c, ok := in.(*ssa.Call)
 			return ok && staticCallee(c) != nil && inMod[staticCallee(c)]
 		}) {
 			for _, a := range c.Common().Args {
-				if u, ok := a.(*ssa.UnOp); ok && u.Op == token.MUL {
-					if x, ok := u.X.(*ssa.Alloc); ok {
-						if st, ok := x.Type().(*types.Pointer).Elem().Underlying().(*types.Struct); ok {
-							al, styleStruct, fnDoFormat = x, st, staticCallee(c)
-						}
+				if x, ld := structAllocOf(fnFormat, c, a, all); x != nil {
+					if st, ok := x.Type().(*types.Pointer).Elem().Underlying().(*types.Struct); ok {
+						al, alUse, styleStruct, fnDoFormat = x, ld, st, staticCallee(c)
 					}
 				}
 			}
@@ -553,7 +755,7 @@ func c20(r *core.Run) {
 						role, fnGetStyle = "designer-style", staticCallee(q)
 					}
 					if role != "" {
-						if w := requiresX(fnFormat, core.Is(al), core.ErrNil(1, core.Is(q))); w != nil {
+						if w := requiresX(fnFormat, core.Is(alUse), core.ErrNil(1, core.Is(q))); w != nil {
 							o.Fail(posOf(q), "the style is used although the classifier reported an error")
 						}
 					}
@@ -665,14 +867,41 @@ func c20(r *core.Run) {
 			}
 			return ""
 		}
-		// conversions: in-module calls (elem, style)
+		// conversions: in-module calls (elem, style); the style operand is a load of a
+		// style field, or a φ of such loads (a temporary selected per word)
+		type styleAlt struct {
+			role string
+			at   ssa.Instruction // the alternative is taken iff control reaches here …
+			edge *core.Edge      // … or (φ input) flows along this edge
+		}
+		altsOf := func(c *ssa.Call) []styleAlt {
+			v := c.Call.Args[1]
+			if r := roleOfLoad(v); r != "" {
+				return []styleAlt{{r, c, nil}}
+			}
+			phi, ok := v.(*ssa.Phi)
+			if !ok {
+				return nil
+			}
+			var out []styleAlt
+			for i, e := range phi.Edges {
+				r := roleOfLoad(e)
+				if r == "" {
+					return nil
+				}
+				pred := phi.Block().Preds[i]
+				out = append(out, styleAlt{r, pred.Instrs[len(pred.Instrs)-1], &core.Edge{From: pred, To: phi.Block()}})
+			}
+			return out
+		}
 		var convs []*ssa.Call
 		for _, c := range core.Calls(f, func(in ssa.Instruction) bool {
 			c, ok := in.(*ssa.Call)
 			if !ok || staticCallee(c) == nil || !inMod[staticCallee(c)] || len(c.Call.Args) != 2 {
 				return false
 			}
-			return strings.HasSuffix(roleOfLoad(c.Call.Args[1]), "-style")
+			as := altsOf(c)
+			return len(as) > 0 && strings.HasSuffix(as[0].role, "-style")
 		}) {
 			convs = append(convs, c.(*ssa.Call))
 		}
@@ -680,8 +909,6 @@ func c20(r *core.Run) {
 		got := map[string]bool{}
 		for _, c := range convs {
 			fnTransfer = staticCallee(c)
-			role := roleOfLoad(c.Call.Args[1])
-			got[role] = true
 			ld, ok := c.Call.Args[0].(*ssa.UnOp)
 			var ia *ssa.IndexAddr
 			if ok {
@@ -691,13 +918,27 @@ func c20(r *core.Run) {
 				o.Fail(posOf(c), "%s converts %s, not a word of the split identifier", core.FuncName(f), core.Describe(c.Call.Args[0]))
 				continue
 			}
-			first := core.Cmp(token.EQL, func(v ssa.Value) bool { return sameVal(v, ia.Index) }, core.IsConstInt(0))
-			if role == "go-style" {
-				if w := requiresX(f, core.Is(c), first); w != nil {
-					o.Fail(posOf(c), "%s applies the GO style to words other than the first", core.FuncName(f))
+			// "this is word #0": idx == 0, idx < 1, idx <= 0 (idx is a slice index, never negative)
+			isIdx := func(v ssa.Value) bool { return sameVal(v, ia.Index) }
+			first := core.AnyOf(core.Cmp(token.EQL, isIdx, core.IsConstInt(0)), core.Cmp(token.LSS, isIdx, core.IsConstInt(1)), core.Cmp(token.LEQ, isIdx, core.IsConstInt(0)))
+			holds, fails := core.EdgesOf(f, first)
+			onEdge := func(e *core.Edge, es []core.Edge) bool {
+				for _, x := range es {
+					if e != nil && x == *e {
+						return true
+					}
 				}
-			} else if w := requiresX(f, core.Is(c), core.Not(first)); w != nil {
-				o.Fail(posOf(c), "%s applies the DESIGNER style to the first word", core.FuncName(f))
+				return false
+			}
+			for _, a := range altsOf(c) {
+				got[a.role] = true
+				if a.role == "go-style" {
+					if !onEdge(a.edge, holds) && requiresX(f, core.Is(a.at), first) != nil {
+						o.Fail(posOf(c), "%s applies the GO style to words other than the first", core.FuncName(f))
+					}
+				} else if !onEdge(a.edge, fails) && requiresX(f, core.Is(a.at), core.Not(first)) != nil {
+					o.Fail(posOf(c), "%s applies the DESIGNER style to the first word", core.FuncName(f))
+				}
 			}
 		}
 		if !got["go-style"] || !got["designer-style"] {
@@ -721,7 +962,7 @@ func c20(r *core.Run) {
 			ok := len(ps) == 3 && roleOfLoad(ps[0]) == "prefix" && roleOfLoad(ps[2]) == "suffix"
 			if ok {
 				j, isCall := ps[1].(*ssa.Call)
-				ok = isCall && core.CalleeName(j) == "strings.Join" && roleOfLoad(j.Call.Args[1]) == "separator" && core.DependsOn(j.Call.Args[0], isConv)
+				ok = isCall && core.CalleeName(j) == "strings.Join" && roleOfLoad(j.Call.Args[1]) == "separator" && sliceFedBy(j.Call.Args[0], isConv)
 			}
 			if !ok {
 				var ds []string
@@ -829,32 +1070,69 @@ func c20(r *core.Run) {
 	})
 
 	r.Check("D3/K6/word-boundaries", "the splitter starts a new word exactly at '_' (dropped) and before each of 'A'..'Z' (kept): evaluated concretely for the runes around both ends of the range", func(o *core.O) {
-		// role: the function of the format package that reads runes and appends words
+		// role: the function of the format package that iterates over the runes of its
+		// string parameter (ReadRune on a strings.Reader, or `for range` over the
+		// string) and keeps/flushes a word buffer
 		n := 0
 		for _, f := range ext.Funcs(fmtRel) {
-			reads := core.Calls(f, core.CallMethod("strings.Reader", "ReadRune"))
-			if len(reads) != 1 {
-				continue
+			var rd ssa.Instruction
+			var isRune func(ssa.Value) bool
+			var noRune core.Atom // holds on the edges on which no rune was obtained
+			if reads := core.Calls(f, core.CallMethod("strings.Reader", "ReadRune")); len(reads) == 1 {
+				c := reads[0].(*ssa.Call)
+				rd = c
+				isRune = func(v ssa.Value) bool { return core.IsResult(v, 0, core.Is(c)) }
+				noRune = core.Not(core.ErrNil(2, core.Is(c)))
+			} else {
+				var nexts []*ssa.Next
+				for _, in := range core.Instrs(f, func(in ssa.Instruction) bool {
+					nx, ok := in.(*ssa.Next)
+					if !ok || !nx.IsString {
+						return false
+					}
+					rg, ok := nx.Iter.(*ssa.Range)
+					if !ok {
+						return false
+					}
+					_, isParam := core.Strip(rg.X).(*ssa.Parameter)
+					return isParam
+				}) {
+					nexts = append(nexts, in.(*ssa.Next))
+				}
+				if len(nexts) != 1 {
+					continue
+				}
+				nx := nexts[0]
+				rd = nx
+				isRune = func(v ssa.Value) bool {
+					e, ok := v.(*ssa.Extract)
+					return ok && e.Tuple == ssa.Value(nx) && e.Index == 2
+				}
+				noRune = core.Not(core.BoolVal(func(v ssa.Value) bool {
+					e, ok := v.(*ssa.Extract)
+					return ok && e.Tuple == ssa.Value(nx) && e.Index == 0
+				}))
+			}
+			isFlush := core.Or(core.CallMethod("bytes.Buffer", "Reset"), core.CallMethod("strings.Builder", "Reset"))
+			isKeep := core.Or(core.CallMethod("bytes.Buffer", "WriteRune"), core.CallMethod("strings.Builder", "WriteRune"))
+			if len(core.Instrs(f, isKeep)) == 0 {
+				continue // iterates over runes but builds no words
 			}
 			n++
 			r.Fn(core.FuncName(f))
-			rd := reads[0].(*ssa.Call)
-			isRune := func(v ssa.Value) bool { return core.IsResult(v, 0, core.Is(rd)) }
-			isFlush := core.CallMethod("bytes.Buffer", "Reset")
-			isKeep := core.CallMethod("bytes.Buffer", "WriteRune")
-			if len(core.Instrs(f, isFlush)) == 0 || len(core.Instrs(f, isKeep)) == 0 {
-				o.Unres("%s: word buffer operations (Reset/WriteRune) not found", core.FuncName(f))
+			if len(core.Instrs(f, isFlush)) == 0 {
+				o.Unres("%s: the word buffer is never reset in the function that collects the runes", core.FuncName(f))
 				continue
 			}
-			// paths on which ReadRune failed are not about a rune
-			_, errArm := core.EdgesOf(f, core.ErrNil(2, core.Is(rd)))
+			// paths on which no rune was read are not about a rune
+			errArm, _ := core.EdgesOf(f, noRune)
 			type want struct{ boundary, kept bool }
 			cases := map[rune]want{
 				'@': {false, true}, 'A': {true, true}, 'B': {true, true}, 'M': {true, true}, 'Y': {true, true}, 'Z': {true, true}, '[': {false, true},
 				'a': {false, true}, 'z': {false, true}, '0': {false, true}, '_': {true, false}, '-': {false, true},
 			}
 			for c, w := range cases {
-				cut := core.ConcreteCut(f, isRune, int64(c))
+				cut := concreteCutX(f, isRune, int64(c))
 				both := func(e core.Edge) bool {
 					if cut(e) {
 						return true
